@@ -504,21 +504,46 @@ func (fa *FA) attachCallFacts(c *ssa.Call) {
 	A.atom(key, nil)
 	com := c.Common()
 	callee := com.StaticCallee()
+	// atoms defined by this call: its results (value, length, capacity, nil-ness)
+	resAtoms := map[AtomID]bool{}
+	nres := com.Signature().Results().Len()
+	for k := 0; k < nres; k++ {
+		v := resultValue(c, k)
+		if v == nil {
+			continue
+		}
+		t := v.Type()
+		switch {
+		case isInteger(t):
+			resAtoms[fa.valAtom(v)] = true
+		case isSliceOrString(t):
+			resAtoms[fa.lenAtom(v, aLen)] = true
+			if !isString(t) {
+				resAtoms[fa.lenAtom(v, aCap)] = true
+			}
+		}
+		if nl := fa.nilExpand(v); len(nl.T) == 1 {
+			for id := range nl.T {
+				resAtoms[id] = true
+			}
+		}
+	}
 	attach := func(guard, facts []*Lin, desc string) {
-		// attach to every atom mentioned in the facts that is defined by this call
+		// A fact may only become available once the call has executed: it is attached to
+		// the atoms the call defines, or guarded by a condition on one of them.
 		targets := map[AtomID]bool{}
 		for _, f := range facts {
 			for id := range f.T {
-				a := A.at(id)
-				if a.Block == c.Block() || a.Kind == aCell {
+				if resAtoms[id] || (A.at(id).Kind == aCell && A.at(id).Block == c.Block()) {
 					targets[id] = true
 				}
 			}
 		}
-		if len(targets) == 0 {
-			for _, f := range facts {
-				for id := range f.T {
-					targets[id] = true
+		guardOK := false
+		for _, g := range guard {
+			for id := range g.T {
+				if resAtoms[id] {
+					guardOK = true
 				}
 			}
 		}
@@ -526,18 +551,27 @@ func (fa *FA) attachCallFacts(c *ssa.Call) {
 			for id := range targets {
 				A.at(id).Facts = append(A.at(id).Facts, facts...)
 			}
+			return // a fact about older atoms only is not attached at all
+		}
+		if !guardOK && len(targets) == 0 {
 			return
 		}
 		t := A.newTrigger(desc, guard, facts)
+		var owner *Atom
 		for id := range targets {
-			A.addTrig(A.at(id), t)
+			owner = A.at(id)
+			break
 		}
-		// the guard atoms too, so that knowing err==nil pulls the facts in
-		for _, g := range guard {
-			for id := range g.T {
-				A.addTrig(A.at(id), t)
+		if owner == nil {
+			for _, g := range guard {
+				for id := range g.T {
+					if resAtoms[id] {
+						owner = A.at(id)
+					}
+				}
 			}
 		}
+		A.addTrig(owner, t)
 	}
 	if callee != nil {
 		if ct, ok := A.contracts[callee]; ok && A.scope[callee] {
